@@ -381,6 +381,17 @@ func Shrink(orig []Decision, fails func([]Decision) bool) []Decision {
 			}
 		}
 	}
+	// 5. zero single remaining non-zero step decisions (keeps op lists of sequence engines tight)
+	for i := len(best) - 1; i >= 0; i-- {
+		if best[i].V == 0 || len(best[i].K) < 5 || best[i].K[:5] != "step." {
+			continue
+		}
+		cand := append([]Decision(nil), best...)
+		cand[i].V = 0
+		if fails(cand) {
+			best = cand
+		}
+	}
 	return best
 }
 
